@@ -568,11 +568,26 @@ func rulesMashDeleg(c *Ctx, r *Report) {
 		isNew := strings.HasPrefix(mh.String(), "call:gostuff/minhash.New") && strings.HasSuffix(mh.String(), "(P0)")
 		okArgs := s.expr(a[1]).String() == "P1" && s.expr(a[2]).String() == "P2"
 		okRet := false
+		nRet, nGood := 0, 0
+		otherUse := false
 		instrs(sq, func(in ssa.Instruction) {
-			if rt, isRt := in.(*ssa.Return); isRt && len(rt.Results) == 1 && rt.Results[0] == a[0] {
-				okRet = true
+			if rt, isRt := in.(*ssa.Return); isRt {
+				nRet++
+				// every return hands back the sketch, after Add has run
+				if len(rt.Results) == 1 && rt.Results[0] == a[0] && instrDominates(calls[0], rt) {
+					nGood++
+				}
+			}
+			// nothing else touches the sketch (a fast path that pushes on its own is another construction)
+			if cl, isCall := in.(*ssa.Call); isCall && cl != calls[0] && cl != a[0] {
+				for _, arg := range cl.Call.Args {
+					if arg == a[0] {
+						otherUse = true
+					}
+				}
 			}
 		})
+		okRet = nRet > 0 && nRet == nGood && !otherUse
 		ok = isNew && okArgs && okRet
 	}
 	r.check(ok, "DELEG", fname(sq), "Sequences = New(n) + Add", c.pos(sq.Pos()), "Sequences creates a sketch of size n, passes it with k and all sequences to Add, and returns that sketch", "Sequences is not `mh := New(n); Add(mh, k, seqs...); return mh`: building incrementally with Add differs from one call")
